@@ -88,6 +88,18 @@ def handleE2EArpKill : List String → Option String
     pure s!"{if v then obs else "load=<answers given>"}\t{b2s v}"
   | _ => none
 
+/-- `e2eerr cmdline nFrames nErrors obs` (harness/cmd/sxdiff/e2eerr.go): a packet scan whose ARP cache knows only some of
+    the hosts and no gateway.  By `C13_cache_stage` (one faithful error per request without a MAC, never a probe) composed with
+    `C07_final_full` (every request is one frame or one error on the merged error stream; `C13_error_stream_addrs`) and the logger writing one
+    record per error: at the process boundary `nFrames` probes on the wire and `nErrors` error records, each of them
+    naming its cause, however slowly stderr is read. -/
+def handleE2EErr : List String → Option String
+  | [_cmd, nf, ne, obs] => do
+    let nf ← parseNat? nf; let ne ← parseNat? ne
+    let m := s!"frames={nf};err={ne};mac={ne};exit=0"
+    pure s!"{m}\t{b2s (obs == m)}"
+  | _ => none
+
 /-- `e2esigint cmdline delayMs boundMs canon|raw` (harness/cmd/sxdiff/e2esig.go): a rate-limited run of the real binary
     that got SIGINT `delayMs` after its start.  By `C12_bounded_return` / `C12_no_panic` / `C12_whole_records` the scan call
     returns, nothing panics and the output holds whole records only; at the process boundary: the process was still
